@@ -434,6 +434,49 @@ impl Property for C15 {
     if violation.is_some() || accepted.is_ok() {
       out.nontrivial(fingerprint_json(&(&case.schema, &doc)));
     }
+    if accepted.is_err() {
+      // A rejected document queues nothing: it can never block later commits - neither of the same
+      // handle nor (after the handle went away without commit or rollback) of a later writer that
+      // recovers the log.
+      out.evals += 1;
+      let follow = gen::with_id(&case.schema, "doc-2", case.follow_up.clone());
+      let same_handle = case.edits.len() % 2 == 0;
+      let res: anyhow::Result<()> = (|| {
+        if same_handle {
+          w.add_document(&sut::document(&follow))?;
+          w.commit()?;
+          drop(w);
+        } else {
+          drop(w);
+          let mut w2 = idx.writer()?;
+          w2.add_document(&sut::document(&follow))?;
+          w2.commit()?;
+        }
+        Ok(())
+      })();
+      if let Err(e) = res {
+        out.fail(
+          "rejected-document-blocks-later-commit",
+          format!("add_document rejected {doc}, then a valid document ({}) could not be committed: {e:#}", if same_handle { "same writer" } else { "fresh writer after the first was dropped" }),
+        );
+        return out;
+      }
+      match idx.reader().and_then(|r| sut::contents(&r, 10)) {
+        Ok((docs, _)) => {
+          let ids: Vec<&String> = docs.iter().map(|(i, _)| i).collect();
+          if ids != vec!["doc-2"] {
+            out.fail("rejected-document-left-a-trace", format!("after rejecting {doc} and committing doc-2 the index holds {ids:?}"));
+            return out;
+          }
+        }
+        Err(e) => {
+          out.fail("unreadable-after-commit", format!("{e:#}"));
+          return out;
+        }
+      }
+      out.class(if same_handle { "rejected-then-commit-same-writer" } else { "rejected-then-commit-fresh-writer" });
+      return out;
+    }
     if accepted.is_ok() {
       // (a) commit must succeed
       if let Err(e) = w.commit() {
